@@ -154,6 +154,10 @@ func (e *Expression) Add(res fhir.Resource, name string, value fhir.Base, option
 		}
 	}
 
+	if field.Kind() != protoreflect.MessageKind {
+		// the value (or another proto-level scalar) of a primitive element is not an element to add
+		return fmt.Errorf("%w: '%v' is not an element of %T", ErrNotPatchable, name, proto)
+	}
 	if !field.IsList() && ref.Has(field) {
 		return fmt.Errorf("%w: unable to add value to populated scalar field '%v' in %v resource", ErrNotPatchable, name, resource.TypeOf(res))
 	}
